@@ -1,7 +1,7 @@
 (** The decision trees of [_get_token] / [_handle_comment] regenerated from tokenizer.py (Gen/GtTrees_gen.v) and their
     instance obligations. *)
 From Coq Require Import List NArith Bool.
-From SV Require Import Text.Str Text.Prog Text.Tokenizer Text.GtTable Text.TokGen Text.TokEnum Text.HsTable Text.HsGen.
+From SV Require Import Text.Str Text.Prog Text.Escape Text.EscapeProofs Text.EscPipeline Text.Tokenizer Text.GtTable Text.TokGen Text.TokEnum Text.HsTable Text.HsGen.
 From SV Require Gen.GtTrees_gen.
 Import ListNotations.
 Open Scope N_scope.
@@ -62,3 +62,11 @@ Definition tokenizer_functions_read_only_modelled_state : bool :=
   is_nil SV.Gen.GtTrees_gen.st_foreign_reads && is_nil SV.Gen.GtTrees_gen.st_foreign_globals && is_nil SV.Gen.GtTrees_gen.st_mutable_defaults.
 Definition tokenizer_functions_write_only_modelled_state : bool :=
   is_nil SV.Gen.GtTrees_gen.st_foreign_writes && is_nil SV.Gen.GtTrees_gen.st_table_mutation.
+
+(** Example for [Props/C02.c02_property_as_written]: the objects generated from today's source satisfy every one of its
+    hypotheses (default options, both modes) - the theorem is not vacuous for the code it is about. *)
+Definition c02_property_hypotheses_hold_for_todays_source : bool :=
+  allow_escapes default_opts
+  && forallb (fun ml => match single_sub gen_pipeline ml with Some e => nl_eqb e (excl gen_tables ml) | None => false end
+                        && tbl_ok gen_tables ml) [false; true]
+  && dq_not_operator gen_tables && trees_ok gen_trees && hs_rows_ok gen_hs_rows.
